@@ -219,6 +219,13 @@ def differential_case(case):
                     break
         else:
             m1.fit(X, y1)
+            if name == "Kauri":
+                # history: the precomputed model was first used without its matrix (documented fallback / refusal), fitted and scored
+                for call_ in (lambda: m2.fit(X), lambda: m2.score(X)):
+                    try:
+                        call_()
+                    except Exception:  # noqa
+                        pass
             m2.fit(X, Kname)
             # the matrix must also reach the training when it is handed to fit_predict (same fitted model, same labels)
             if name != "KernelRIM":
